@@ -31,7 +31,7 @@ def consuming(g):
     if h in ("Then", "IgnoreThen", "ThenIgnore", "IgnoreWithCtx", "ThenWithCtx"): return consuming(g[1]) or consuming(g[2])
     if h == "DelimitedBy": return consuming(g[1]) or consuming(g[2]) or consuming(g[3])
     if h == "PaddedBy": return consuming(g[1]) or consuming(g[2])
-    if h == "Group": return any(consuming(x) for x in g[1])
+    if h in ("Group", "GroupArr"): return any(consuming(x) for x in g[1])
     if h == "Or": return consuming(g[1]) and consuming(g[2])
     if h in ("Choice", "ChoiceVec"): return len(g[1]) > 0 and all(consuming(x) for x in g[1])
     if h in ("OrNot", "Not", "Rewind", "JustCfg"): return False
@@ -48,6 +48,7 @@ def consuming(g):
     if h == "MapErr": return consuming(g[2])
     if h == "Memo": return consuming(g[2])
     if h in ("Rec", "RecDecl", "Boxed"): return consuming(g[1])
+    if h == "NestedIn": return True
     if h == "Pratt": return consuming(g[2])
     return False
 
@@ -106,6 +107,7 @@ class Gen:
     def toks(self, lo=1, hi=2): return [self.tok() for _ in range(self.r.randint(lo, hi))]
     def k(self): return self.r.randint(1, 9)
     def fn1(self):
+        if getattr(self, "track", False) and self.r.random() < 0.6: return "FNew"
         return self.r.choice(["FId", ["FTag", self.k()], ["FConst", self.k()], "FFst", "FSnd", "FDup"])
     def pred(self):
         c = self.r.random()
@@ -175,6 +177,7 @@ class Gen:
         if c == "DelimitedBy": return [c, G(), G(), G()]
         if c == "PaddedBy": return [c, G(), G()]
         if c == "Group": return [c, [G() for _ in range(self.r.randint(1, 4))]]
+        if c == "GroupArr": return [c, [G() for _ in range(self.r.randint(1, 4))]]
         if c == "Choice": return [c, [G() for _ in range(self.r.randint(1, 4))]]
         if c == "ChoiceVec": return [c, [G() for _ in range(self.r.randint(0, 4))]]
         if c == "RepUnit": return [c, self.it(d - 1, unit=True)]
@@ -192,6 +195,7 @@ class Gen:
         if c == "Pratt": return self.pratt()
         if c == "Rec": return self.rec(d - 1)
         if c == "Boxed": return [c, G()]
+        if c == "NestedIn": return [c, G()]
         raise AssertionError(c)
 
     # ----- Pratt tables -----
@@ -328,7 +332,7 @@ def sample(rng, g, alpha, ctx=()):
         a = S(g[1]); return a + sample(rng, g[2], alpha, tuple(a))
     if h == "DelimitedBy": return S(g[2]) + S(g[1]) + S(g[3])
     if h == "PaddedBy": return S(g[2]) + S(g[1]) + S(g[2])
-    if h == "Group": return [t for x in g[1] for t in S(x)]
+    if h in ("Group", "GroupArr"): return [t for x in g[1] for t in S(x)]
     if h == "Or": return S(rng.choice([g[1], g[2]]))
     if h in ("Choice", "ChoiceVec"): return S(rng.choice(g[1])) if g[1] else []
     if h == "OrNot": return S(g[1]) if rng.random() < 0.6 else []
@@ -353,6 +357,7 @@ def sample(rng, g, alpha, ctx=()):
     if h in ("Rec", "RecDecl"): return sample_rec(rng, g[1], alpha, ctx, [g[1]], rng.randint(0, 4))
     if h == "Var": return []
     if h == "Pratt": return sample_pratt(rng, g, alpha, ctx)
+    if h == "NestedIn": return [("G", tuple(S(g[1])))]      # a group token whose children the inner grammar accepts
     return []
 
 def sample_rec(rng, body, alpha, ctx, envs, depth):
@@ -452,8 +457,21 @@ def sample_it(rng, i, alpha, ctx, exactly=None):
         return out
     return []
 
+def is_group(t): return isinstance(t, tuple) and len(t) == 2 and t[0] == "G"
+
+def rand_tree(rng, alpha, depth=2, maxlen=4):
+    return ("G", tuple(rand_tree(rng, alpha, depth - 1, 3) if (depth > 0 and rng.random() < 0.25) else rng.choice(alpha)
+                       for _ in range(rng.randint(0, maxlen))))
+
 def mutate(rng, s, alpha):
     s = list(s)
+    groups = [i for i, t in enumerate(s) if is_group(t)]
+    if groups and rng.random() < 0.55:         # token trees: an ill-formed inner sequence
+        i = rng.choice(groups)
+        s[i] = ("G", tuple(mutate(rng, list(s[i][1]), alpha)))
+        return s
+    if groups and rng.random() < 0.15:         # a leaf where a group is expected
+        s[rng.choice(groups)] = rng.choice(alpha); return s
     c = rng.random()
     if c < 0.3 and s: del s[rng.randrange(len(s))]
     elif c < 0.6: s.insert(rng.randint(0, len(s)), rng.choice(alpha))
@@ -461,8 +479,9 @@ def mutate(rng, s, alpha):
     else: s.append(rng.choice(alpha))
     return s
 
-def inputs_for(rng, g, alpha, n_valid=3, n_mut=4, n_rand=2, maxlen=7, extra_alpha=()):
+def inputs_for(rng, g, alpha, n_valid=3, n_mut=4, n_rand=2, maxlen=7, extra_alpha=(), trees=False):
     al = list(alpha) + list(extra_alpha)
+    pick = (lambda: rand_tree(rng, al) if rng.random() < 0.3 else rng.choice(al)) if trees else (lambda: rng.choice(al))
     seen, out = set(), []
     def add(s):
         t = tuple(s)
@@ -474,9 +493,9 @@ def inputs_for(rng, g, alpha, n_valid=3, n_mut=4, n_rand=2, maxlen=7, extra_alph
         add(s)
         for _ in range(max(1, n_mut // max(n_valid, 1))): add(mutate(rng, s, al))
         if s: add(s[:-1])                       # truncated
-        add(s + [rng.choice(al)])               # extended by one token
+        add(s + [pick()])               # extended by one token
     for _ in range(n_rand):
-        add([rng.choice(al) for _ in range(rng.randint(1, maxlen))])
+        add([pick() for _ in range(rng.randint(1, maxlen))])
     return out
 
 def all_strings(alpha, maxlen):
